@@ -49,7 +49,8 @@ def step (line : String) : String :=
     else "reply=1 client_closed=1"
   | ["PAR", _, _] => "ok"
   | ["CH", _, _, _, _] => "ok"
-  | ["SP", _, _, _, _] => "ok"      -- the same theorems; TLS records and QUIC streams are transports (not modelled)      -- handover_exact on both hops + relay fidelity
+  | ["SP", _, _, _, _] => "ok"
+  | ["XC", _, _, _, _] => "ok"      -- relay_noninterference: a tunnel's output is a function of its own input only      -- the same theorems; TLS records and QUIC streams are transports (not modelled)      -- handover_exact on both hops + relay fidelity
   | _ => "bad-op"
 
 partial def loop (h : IO.FS.Stream) (out : IO.FS.Stream) : IO Unit := do
